@@ -341,6 +341,7 @@ theorem bagSectionInfo_fold (conv : Conv) (s : Schema) (b : Bag) (ty : Str) (nm 
         else
           match s.gettype ty with
           | some (.concrete t) => mkBag conv t lr.1 >>= fun child => pure ({ b with sectitems := lr.2 }, some child)
+          | none => throw (Fail.cfg { kind := .schema, tag := "unknown type name" })
           | _ => throw (Fail.internal "AttributeError") := rfl
 
 end ZCV.Conf
